@@ -4,7 +4,7 @@
 
 use super::fmt::{flat_join, join, Span, TokenFmt};
 use super::{DocString, NumberParts};
-use crate::ast::{Expr, Precedence, UnaryOpType};
+use crate::ast::{BinOpType, Expr, Precedence, UnaryOpExpr, UnaryOpType};
 use crate::output::Digits;
 use chrono::{DateTime, TimeZone};
 use serde_derive::Serialize;
@@ -199,8 +199,23 @@ impl ExprReply {
                     if prec < Precedence::Mul {
                         literal!("(");
                     }
-                    for expr in exprs.iter() {
-                        recurse(expr, parts, Precedence::Pow);
+                    for (i, expr) in exprs.iter().enumerate() {
+                        let signed = matches!(
+                            *expr,
+                            Expr::UnaryOp(UnaryOpExpr {
+                                op: UnaryOpType::Positive | UnaryOpType::Negative,
+                                ..
+                            })
+                        );
+                        recurse(
+                            expr,
+                            parts,
+                            if signed && i > 0 {
+                                Precedence::Term
+                            } else {
+                                Precedence::Pow
+                            },
+                        );
                     }
                     if prec < Precedence::Mul {
                         literal!(")");
@@ -223,21 +238,36 @@ impl ExprReply {
                     if prec < op_prec {
                         literal!("(");
                     }
+                    // Only `^` is right-associative: everywhere else an operand of
+                    // the same level on the right needs its parentheses.
+                    let right_prec = if binop.op == BinOpType::Pow {
+                        op_prec
+                    } else {
+                        succ
+                    };
                     recurse(&binop.left, parts, succ);
                     literal!(binop.op.symbol());
-                    recurse(&binop.right, parts, op_prec);
+                    recurse(&binop.right, parts, right_prec);
                     if prec < op_prec {
                         literal!(")");
                     }
                 }
                 Expr::UnaryOp(ref unaryop) => match unaryop.op {
-                    UnaryOpType::Positive => {
-                        literal!("+");
-                        recurse(&unaryop.expr, parts, Precedence::Plus)
-                    }
-                    UnaryOpType::Negative => {
-                        literal!("-");
-                        recurse(&unaryop.expr, parts, Precedence::Plus)
+                    UnaryOpType::Positive | UnaryOpType::Negative => {
+                        // A sign in the base of a power or after another factor
+                        // would be read as a binary operator.
+                        if prec < Precedence::Plus {
+                            literal!("(");
+                        }
+                        if let UnaryOpType::Positive = unaryop.op {
+                            literal!("+");
+                        } else {
+                            literal!("-");
+                        }
+                        recurse(&unaryop.expr, parts, Precedence::Plus);
+                        if prec < Precedence::Plus {
+                            literal!(")");
+                        }
                     }
                     UnaryOpType::Degree(ref suffix) => {
                         if prec < Precedence::Mul {
@@ -258,7 +288,7 @@ impl ExprReply {
                         literal!("(");
                     }
                     let mut sub = vec![];
-                    recurse(expr, &mut sub, Precedence::Div);
+                    recurse(expr, &mut sub, Precedence::Mul);
                     parts.push(ExprParts::Property {
                         property: property.to_owned(),
                         subject: sub,
